@@ -38,6 +38,17 @@ EXPLANATION = (
     "slice or filter() on the way); a queue is not re-bound or shortened once children may be in it; every branch condition "
     "that depends on the found set is the membership test of the current child's own verify cap inside the per-child loop - "
     "so no child is skipped for what is known about other children, and (with 1) a None verify cap never counts as seen. "
+    "(9) the traversal functions are found by role, not by name: the classifying function is the method reachable from "
+    "deep_traverse whose loop tests a child's verify cap against a parameter (the found set), the per-directory step is the "
+    "method deep_traverse starts with, the visiting loops are those that register (addCallback) or, in an inlineCallbacks "
+    "generator, yield one walker.add_node / one recursive step per queue entry; queues handed over as `a, b = self.helper(..)` "
+    "<- `return q1, q2` are followed by position; rules 1, 2, 3, 8 are decided in either shape (in the generator shape: the "
+    "listing is the awaited <node>.list() of the node reported to add_node, every visit is yielded, and the root counts as "
+    "seeded when the step records <node>.get_verify_cap() on every path before that node's listing is classified). Whatever a "
+    "child that may have a verify cap is handed to (any call carrying the child or a tuple holding it), found.add(<its verify "
+    "cap>) lies on every path of that same loop iteration - a record made later, when the child is processed, does not count. "
+    "Other arrangements (classification and step in one function, queues not returned as a tuple of names, visits from a "
+    "third function) are not modelled and give ANALYSIS-ERROR. "
     "Undecided: that write-cap and read-cap of one object derive equal verify caps (value level), that the class tests "
     "used by DeepStats are the right ones for every node class (value level), largest-* maxima, behaviour of the "
     "walker's own Deferreds beyond being returned, cancellation timing (raise_if_cancelled), the turn break every 100 "
@@ -148,11 +159,76 @@ def _lambda_bindings(lam):
     return out, [p.arg for p in pos + a.kwonlyargs]
 
 
+def _is_gen(fn):
+    """decorated with (defer.)inlineCallbacks: `x = yield d` is the sequencing form of d.addCallback"""
+    for d in fn.node.decorator_list:
+        if isinstance(d, ast.Call):
+            d = d.func
+        if (attr_path(d) or "").split(".")[-1] == "inlineCallbacks":
+            return True
+    return False
+
+
+def _traversal_funcs(root):
+    """root and the methods of its class reachable through self.<m> references (calls and method values, lambdas
+    and nested functions included)."""
+    seen, work = [], [root]
+    while work:
+        fn = work.pop()
+        if any(fn is x for x in seen):
+            continue
+        seen.append(fn)
+        work.extend(fn.nested.values())
+        for x in func_own_nodes(fn, into_lambda=True):
+            if isinstance(x, ast.Attribute) and isinstance(x.ctx, ast.Load) and isinstance(x.value, ast.Name) \
+                    and x.value.id == "self" and root.cls is not None:
+                m = root.cls.lookup(x.attr)
+                if m is not None:
+                    work.append(m)
+    return seen
+
+
 # ---------------------------------------------------------------------- run
 def run(ctx: Context):
     idx = ctx.idx
-    CH = idx.func(DN + "._deep_traverse_dirnode_children")
-    TD = idx.func(DN + "._deep_traverse_dirnode")
+    # ---- the traversal functions, found by role --------------------------------------------------
+    # DT: the entry point.  TFUNCS: the methods reachable from it through self.<m> references (calls, method values
+    # handed to addCallback, also inside lambdas).  CLS: the one that classifies the children of a listing (a loop with
+    # a membership test on / an .add to a parameter - the found set).  TD: the method deep_traverse starts the walk
+    # with (it reaches CLS).  CON: the function holding the two loops that visit the queued children (CLS itself in the
+    # callback-chain shape, its caller when the classification is a helper that returns the queues).
+    DT = idx.func(DN + ".deep_traverse")
+    TFUNCS = _traversal_funcs(DT)
+
+    def _loop_params(fn, pred):
+        ps = first_positional_params(fn)
+        return sorted({nm for (x, nm) in pred(fn) if nm in ps and _enclosing_loop(fn, x) is not None})
+
+    def _memb(fn):
+        return [(x, x.comparators[0].id) for x in func_own_nodes(fn) if isinstance(x, ast.Compare) and len(x.ops) == 1
+                and isinstance(x.ops[0], (ast.In, ast.NotIn)) and isinstance(x.comparators[0], ast.Name)]
+
+    def _adds(fn):
+        return [(c, c.func.value.id) for c in calls_in_func(fn, "add") if isinstance(c.func, ast.Attribute)
+                and isinstance(c.func.value, ast.Name)]
+    cls_c = [fn for fn in TFUNCS if _loop_params(fn, _memb)] or [fn for fn in TFUNCS if _loop_params(fn, _adds)]
+    if len(cls_c) != 1:
+        raise AnchorVanished("deep_traverse: the function that classifies the children of a listing against the found set "
+                             "was not identified (%s)" % sorted(short(f) for f in cls_c))
+    CH = CLS = cls_c[0]
+    td_c = []
+    for c in calls_in_func(DT, None, into_lambda=True):
+        if isinstance(c.func, ast.Attribute) and isinstance(c.func.value, ast.Name) and c.func.value.id == "self":
+            m = DT.cls.lookup(c.func.attr) if DT.cls is not None else None
+            if m is not None and m not in td_c and any(f is CLS for f in _traversal_funcs(m)):
+                td_c.append(m)
+    if len(td_c) != 1:
+        raise AnchorVanished("deep_traverse: the per-directory step the walk is started with was not identified (%s)" % (
+            sorted(short(f) for f in td_c)))
+    TD = td_c[0]
+    if TD is CLS:
+        raise AnchorVanished("deep_traverse: per-directory step and classification of the children are one function; "
+                             "this shape is not modelled")
     ch_params = first_positional_params(CH)
     td_params = first_positional_params(TD)
 
@@ -175,7 +251,17 @@ def run(ctx: Context):
     cfg = CH.cfg()
     fnorm = FlowNorm(CH)
 
-    # consumer loops and the lists they drain (roles of dirkids / filekids)
+    add_calls = [c for c in calls_in_func(CH, "add") if _recv_is(c, FOUND)]
+    anchors = add_calls + [x for x in memb if x.comparators[0].id == FOUND]
+    if not anchors:
+        raise AnchorVanished("neither %s.add(..) nor a membership test on it in %s" % (FOUND, short(CH)))
+    L1 = _enclosing_loop(CH, anchors[0])
+    if L1 is None:
+        raise AnchorVanished("%s.add is not inside the loop over the children" % FOUND)
+
+    # consumer loops and the lists they drain (roles of dirkids / filekids).  A visit is either registered on a Deferred
+    # (addCallback(lambda/named function calling it)) or, in an inlineCallbacks generator, called in the loop body
+    # (`yield visit(..)` is the sequencing form of addCallback; whether it is yielded is rule 3's business).
     def reg_calls_in(stmts):
         out = []
         for st in stmts:
@@ -184,45 +270,91 @@ def run(ctx: Context):
                     out.append(x)
         return out
 
-    def visit_calls(regcall, tail):
+    def visit_calls(regcall, tail, G=None):
+        G = G or CON
         t = regcall.args[0]
         if isinstance(t, ast.Lambda):
             return [c for c in own_nodes(t.body, into_lambda=True) if isinstance(c, ast.Call) and call_tail(c) == tail]
-        if isinstance(t, ast.Name) and t.id in CH.nested:
-            return calls_in_func(CH.nested[t.id], tail, into_lambda=True)
+        if isinstance(t, ast.Name) and t.id in G.nested:
+            return calls_in_func(G.nested[t.id], tail, into_lambda=True)
         return []
 
-    add_calls = [c for c in calls_in_func(CH, "add") if _recv_is(c, FOUND)]
-    anchors = add_calls + [x for x in memb if x.comparators[0].id == FOUND]
-    if not anchors:
-        raise AnchorVanished("neither %s.add(..) nor a membership test on it in _deep_traverse_dirnode_children" % FOUND)
-    L1 = _enclosing_loop(CH, anchors[0])
-    if L1 is None:
-        raise AnchorVanished("%s.add is not inside the loop over the children" % FOUND)
+    def direct_visits(G, stmts, tail):
+        """visit calls evaluated in the loop body itself (generator shape)"""
+        if not _is_gen(G):
+            return []
+        return [x for st in stmts for x in own_nodes(st) if isinstance(x, ast.Call) and call_tail(x) == tail
+                and isinstance(x.func, ast.Attribute) and isinstance(x.func.value, ast.Name)]
     consumers = {}
-    for lp in _loops(CH):
-        if lp is L1:
-            continue
-        it, enum = _strip_enumerate(lp.iter)
-        if not isinstance(it, ast.Name):
-            inner = [x for x in ast.walk(it) if isinstance(x, ast.Name)]
-            if not inner:
+    for G in TFUNCS:
+        for lp in _loops(G):
+            if lp is L1:
                 continue
-            it = inner[0]
-        for rc in reg_calls_in(lp.body):
-            if visit_calls(rc, "_deep_traverse_dirnode"):
-                consumers.setdefault("dir", []).append((lp, it.id, enum))
-                break
-            if visit_calls(rc, "add_node"):
-                consumers.setdefault("file", []).append((lp, it.id, enum))
-                break
+            it, enum = _strip_enumerate(lp.iter)
+            if not isinstance(it, ast.Name):
+                inner = [x for x in ast.walk(it) if isinstance(x, ast.Name)]
+                if not inner:
+                    continue
+                it = inner[0]
+            rcs = reg_calls_in(lp.body)
+            if any(visit_calls(rc, TD.name, G) for rc in rcs) or direct_visits(G, lp.body, TD.name):
+                consumers.setdefault("dir", []).append((lp, it.id, enum, G))
+            elif any(visit_calls(rc, "add_node", G) for rc in rcs) or direct_visits(G, lp.body, "add_node"):
+                consumers.setdefault("file", []).append((lp, it.id, enum, G))
     for k in ("dir", "file"):
         if len(consumers.get(k, [])) != 1:
-            raise AnchorVanished("_deep_traverse_dirnode_children: the loop visiting the queued %s children was not "
+            raise AnchorVanished("deep traversal: the loop visiting the queued %s children was not "
                                  "identified (%d candidates)" % (k, len(consumers.get(k, []))))
-    DIRL, FILEL = consumers["dir"][0][1], consumers["file"][0][1]
+    CON = consumers["dir"][0][3]
+    if consumers["file"][0][3] is not CON:
+        raise AnchorVanished("queued files and queued directories are visited from different functions (%s, %s); this "
+                             "shape is not modelled" % (short(consumers["file"][0][3]), short(CON)))
+    if CON is not CLS and CON is not TD:
+        raise AnchorVanished("the queued children are visited from %s, which is neither the classifying function nor "
+                             "the per-directory step; this shape is not modelled" % short(CON))
+    CON_DIRL, CON_FILEL = consumers["dir"][0][1], consumers["file"][0][1]
+    con_params = first_positional_params(CON)
+    CLS_CALL = None
+    if CON is CLS:
+        DIRL, FILEL = CON_DIRL, CON_FILEL
+        CON_FOUND, CON_WALKER = FOUND, WALKER
+    else:
+        # the queues are handed over as the helper's result: `<a>, <b> = self.<CLS>(..)` <- `return <q1>, <q2>`
+        ccalls = [c for c in calls_in_func(CON, CLS.name) if call_name(c) == "self." + CLS.name]
+        if len(ccalls) != 1:
+            raise AnchorVanished("%s: %d calls of %s (exactly one expected)" % (short(CON), len(ccalls), CLS.name))
+        CLS_CALL = ccalls[0]
+        unp = [st for st in func_own_nodes(CON) if isinstance(st, ast.Assign) and len(st.targets) == 1
+               and (st.value is CLS_CALL or (isinstance(st.value, (ast.Yield, ast.Await)) and st.value.value is CLS_CALL))]
+        tnames = None
+        if len(unp) == 1 and isinstance(unp[0].targets[0], (ast.Tuple, ast.List)) \
+                and all(isinstance(e, ast.Name) for e in unp[0].targets[0].elts):
+            tnames = [e.id for e in unp[0].targets[0].elts]
+        crets = [n.ast.value for n in cfg.find(is_return)]
+        if tnames is None or not crets or not all(
+                isinstance(v, ast.Tuple) and len(v.elts) == len(tnames) and all(isinstance(e, ast.Name) for e in v.elts)
+                for v in crets) or len({tuple(e.id for e in v.elts) for v in crets}) != 1:
+            raise AnchorVanished("%s: the queues built by %s are not handed over as `a, b = self.%s(..)` <- `return q1, q2`; "
+                                 "this shape is not modelled" % (short(CON), short(CLS), CLS.name))
+        rnames = [e.id for e in crets[0].elts]
+        if CON_DIRL not in tnames or CON_FILEL not in tnames:
+            raise AnchorVanished("%s: the visited queues %s / %s are not the result of %s" % (
+                short(CON), CON_FILEL, CON_DIRL, CLS.name))
+        DIRL, FILEL = rnames[tnames.index(CON_DIRL)], rnames[tnames.index(CON_FILEL)]
+        amap0 = {}
+        for q, a in zip(ch_params, CLS_CALL.args):
+            amap0[q] = a
+        for kw in CLS_CALL.keywords:
+            if kw.arg:
+                amap0[kw.arg] = kw.value
+        a_f, a_w = amap0.get(FOUND), amap0.get(WALKER)
+        if not (isinstance(a_f, ast.Name) and a_f.id in con_params and isinstance(a_w, ast.Name) and a_w.id in con_params):
+            raise AnchorVanished("%s: the found set / walker handed to %s are not its own parameters" % (short(CON), CLS.name))
+        CON_FOUND, CON_WALKER = a_f.id, a_w.id
     if DIRL == FILEL:
         raise AnchorVanished("directory and file children share one queue")
+    ccfg = cfg if CON is CLS else CON.cfg()
+    cnorm = fnorm if CON is CLS else FlowNorm(CON)
 
     # loop-1 variables
     tgt = L1.target
@@ -395,17 +527,106 @@ def run(ctx: Context):
             r.violation(CH, CH.loc(L1), "child paths are built from different bases: %s" % sorted(pathparams))
     PATHP = sorted(pathparams)[0] if pathparams else None
 
+    # -- 9. recorded when discovered, whatever the child is handed to ------------------------------
+    with ctx.rule("C21.9", "R2", "a child that may have a verify cap is recorded in the found set in the very loop iteration "
+                  "that admits it (tests it against the set and hands it on to a queue / the walker / a visit), not later "
+                  "when it is processed: found.add(<its verify cap>) lies on every path of the iteration that hands it on",
+                  expected=3) as r:
+        r.site(CLS, L1, "loop over the listing")
+        PURE = ("isinstance", "providedBy", "get_verify_cap", "is_unknown", "len", "repr", "str")
+
+        def handovers(n):
+            out = []
+            for c in node_calls(n, into_lambda=True):
+                t = call_tail(c)
+                if t in PURE or (t in ("add", "update") and _recv_is(c, FOUND)):
+                    continue
+                if isinstance(c.func, ast.Attribute) and isinstance(c.func.value, ast.Name) and c.func.value.id == CHILD:
+                    continue                         # a question asked of the child, not a hand-over
+                vals = list(c.args) + [kw.value for kw in c.keywords]
+                carried = False
+                for a in vals:
+                    if isinstance(a, ast.Name) and a.id != CHILD:
+                        a = fnorm.resolve(n, a)
+                    elts = a.elts if isinstance(a, (ast.Tuple, ast.List)) else [a]
+                    if any(isinstance(e, ast.Name) and e.id == CHILD for e in elts):
+                        carried = True
+                if carried:
+                    out.append(c)
+            if n.kind == "stmt" and isinstance(n.ast, ast.AugAssign) and any(
+                    isinstance(x, ast.Name) and x.id == CHILD for x in ast.walk(n.ast.value)):
+                out.append(n.ast)
+            return out
+        hsites = [(n, c) for n in cfg.nodes if n.ast is not None and id(n.ast) in body_ids for c in handovers(n)]
+        for (n, c) in hsites:
+            r.site(CLS, c, "child handed on")
+        unk_forms9 = ("isinstance(%s, UnknownNode)" % CHILD, "%s.is_unknown()" % CHILD)
+
+        # state: (handed on, recorded, unk, notnone); facts: 0 unknown, 1 yes, 2 no
+        def step9(n, lab, st):
+            ho, fa, unk, nn = st
+            if n.kind == "stmt" and CHILD in node_stores(n):
+                unk = nn = 0
+            if handovers(n):
+                ho = 1
+            for c in node_calls(n):
+                if call_tail(c) in ("add", "update") and _recv_is(c, FOUND) and len(c.args) == 1 \
+                        and fnorm.norm(n, c.args[0]) == VER:
+                    fa = 1
+            f = fnorm.edge_fact(n, lab)
+            if f:
+                op, l, rr = f
+                new = {}
+                if op in ("truth", "false") and l in unk_forms9:
+                    new["unk"] = 1 if op == "truth" else 2
+                if op in ("is", "is not", "==", "!=") and {l, rr} == {"None", VER}:
+                    new["nn"] = 2 if op in ("is", "==") else 1
+                if op in ("truth", "false") and l == VER:
+                    new["nn"] = 1 if op == "truth" else 2
+                cur = {"unk": unk, "nn": nn}
+                for k, v in new.items():
+                    if cur[k] and cur[k] != v:
+                        return None
+                unk, nn = new.get("unk", unk), new.get("nn", nn)
+            return (ho, fa, unk, nn)
+        ends9, esc9, vis9, par9 = _iteration_states(cfg, head, body_ids, (0, 0, 0, 0), step9)
+        r.count(len(vis9))
+        if not ends9:
+            raise AnalysisError("no complete iteration of the children loop found")
+        for (nid, st) in sorted(ends9) + sorted(esc9):
+            ho, fa, unk, nn = st
+            if ho and not fa and unk != 1 and nn != 2:
+                w = witness(cfg, par9, (nid, st))
+                r.violation(CLS, CLS.loc(L1), "a child that may have a verify cap is handed on in a loop iteration that does "
+                            "not record that cap in %s (recording it later, when the child is processed, is too late): every "
+                            "further link to it met before then passes the 'not in %s' test and it is walked again "
+                            "(path: %s)" % (FOUND, FOUND, w.brief()), w)
+                break
+        # a record made elsewhere in the traversal does not stand in for it: say so when one exists
+        for G in (TD, CON):
+            if G is CLS:
+                continue
+            gf = CON_FOUND if G is CON else None
+            if gf:
+                for c in calls_in_func(G, "add", into_lambda=True):
+                    if _recv_is(c, gf):
+                        ctx.note("C21.9: %s also records a cap in %s (%s); only the record made at discovery counts" % (
+                            short(G), gf, src(G, c)))
+
     # -- 3. one visit callback per queued child ------------------------------------
     with ctx.rule("C21.3", "E7/R9", "each filekids entry gets exactly one walker.add_node(child, childpath) callback and "
                   "each dirkids entry exactly one _deep_traverse_dirnode(child, childpath, ..), bound per iteration, on "
                   "the returned Deferred", expected=4) as r:
-        rets = cfg.find(is_return)
-        dnames = {n.ast.value.id for n in rets if isinstance(n.ast.value, ast.Name)}
-        r.require(len(dnames) == 1 and all(isinstance(n.ast.value, ast.Name) for n in rets), CH, CH.loc(),
-                  "_deep_traverse_dirnode_children does not return its one callback chain")
-        D = sorted(dnames)[0] if dnames else None
-        for kind, tail in (("file", "add_node"), ("dir", "_deep_traverse_dirnode")):
-            lp, lst, enum = consumers[kind][0]
+        GEN = _is_gen(CON)
+        D = None
+        if not GEN:
+            rets = ccfg.find(is_return)
+            dnames = {n.ast.value.id for n in rets if isinstance(n.ast.value, ast.Name)}
+            r.require(len(dnames) == 1 and all(isinstance(n.ast.value, ast.Name) for n in rets), CON, CON.loc(),
+                      "%s does not return its one callback chain" % CON.name)
+            D = sorted(dnames)[0] if dnames else None
+        for kind, tail in (("file", "add_node"), ("dir", TD.name)):
+            lp, lst, enum, _G = consumers[kind][0]
             pair_t = lp.target
             if enum:
                 pair_t = pair_t.elts[1] if isinstance(pair_t, ast.Tuple) and len(pair_t.elts) == 2 else None
@@ -413,112 +634,135 @@ def run(ctx: Context):
                 raise AnchorVanished("loop over %s no longer unpacks (child, childpath)" % lst)
             N_, P_ = pair_t.elts[0].id, pair_t.elts[1].id
             lnames = {x.id for x in ast.walk(lp.target) if isinstance(x, ast.Name)}
-            r.site(CH, lp, "loop over %s" % lst)
+            r.site(CON, lp, "loop over %s" % lst)
             # the list is drained as a whole
             it, _e = _strip_enumerate(lp.iter)
-            r.require(isinstance(it, ast.Name), CH, CH.loc(lp), "loop runs over %s, not the whole queue" % src(CH, lp.iter))
-            lhead = [n for n in cfg.nodes if n.kind == "iter" and n.ast is lp][0]
+            r.require(isinstance(it, ast.Name), CON, CON.loc(lp), "loop runs over %s, not the whole queue" % src(CON, lp.iter))
+            lhead = [n for n in ccfg.nodes if n.kind == "iter" and n.ast is lp][0]
             lbody = _ids_under(lp.body)
 
             def is_visit_reg(c):
                 return isinstance(c.func, ast.Attribute) and c.func.attr in REGS and c.args and bool(visit_calls(c, tail))
 
+            def is_visit_call(c):
+                """generator shape: the visit is called in the loop body itself"""
+                return GEN and call_tail(c) == tail and isinstance(c.func, ast.Attribute) \
+                    and isinstance(c.func.value, ast.Name)
+
+            def yielded_at(n, c):
+                return any(isinstance(y, (ast.Yield, ast.Await)) and y.value is c for e in node_exprs(n) for y in own_nodes(e))
+
             def step(n, lab, st):
                 k = st[0]
                 for c in node_calls(n):
-                    if is_visit_reg(c):
+                    if is_visit_reg(c) or is_visit_call(c):
                         k = min(2, k + 1)
                 return (k,)
-            ends, escaped, visited, parent = _iteration_states(cfg, lhead, lbody, (0,), step)
+            ends, escaped, visited, parent = _iteration_states(ccfg, lhead, lbody, (0,), step)
             r.count(len(visited))
             for (nid, st) in sorted(escaped)[:1]:
-                r.violation(CH, CH.loc(lp), "the loop over %s can be left early: queued children are never visited" % lst,
-                            witness(cfg, parent, (nid, st)))
+                r.violation(CON, CON.loc(lp), "the loop over %s can be left early: queued children are never visited" % lst,
+                            witness(ccfg, parent, (nid, st)))
             for (nid, st) in sorted(ends):
                 if st[0] != 1:
-                    r.violation(CH, CH.loc(lp), "an entry of %s gets %d visit callbacks in one iteration (exactly one "
-                                "is required)" % (lst, st[0]), witness(cfg, parent, (nid, st)))
+                    r.violation(CON, CON.loc(lp), "an entry of %s gets %d visit%s in one iteration (exactly one "
+                                "is required)" % (lst, st[0], "s" if GEN else " callbacks"), witness(ccfg, parent, (nid, st)))
                     break
             # the registration(s)
-            for n in cfg.nodes:
+            for n in ccfg.nodes:
                 if n.ast is None or id(n.ast) not in lbody:
                     continue
                 for c in node_calls(n):
-                    if not is_visit_reg(c):
-                        continue
-                    r.site(CH, c, "visit callback for %s" % lst)
-                    r.require(REGS[c.func.attr] in ("cb", "both"), CH, CH.loc(c),
-                              "the visit is registered with %s: it does not run on the success path" % c.func.attr)
-                    r.require(attr_path(c.func.value) == D, CH, CH.loc(c),
-                              "the visit is registered on %s, not on the returned Deferred %s" % (src(CH, c.func.value), D))
-                    t = c.args[0]
-                    if isinstance(t, ast.Lambda):
-                        binds, lparams = _lambda_bindings(t)
-                        for x in own_nodes(t.body, into_lambda=True):
-                            if isinstance(x, ast.Name) and x.id in lnames and x.id not in lparams:
-                                r.violation(CH, CH.loc(c), "the callback reads loop variable %s when it runs, not when it is "
-                                            "registered: every callback sees the last entry of %s" % (x.id, lst))
-                                break
+                    if is_visit_call(c):
+                        # `yield visit(child, childpath, ..)`: evaluated now, with this iteration's loop variables
+                        r.site(CON, c, "visit of an entry of %s" % lst)
+                        r.require(yielded_at(n, c), CON, CON.loc(c), "the result of %s is not yielded: the generator does not "
+                                  "wait for this visit, so the walk can finish (and report) before the %s is done" % (
+                                      src(CON, c.func), "subtree" if kind == "dir" else "node"))
+                        lparams, t = (), None
 
-                        def val(e):
-                            """loop variable denoted by e inside the lambda"""
-                            if isinstance(e, ast.Name) and e.id in binds and isinstance(binds[e.id], ast.Name):
-                                return binds[e.id].id
+                        def val(e, n=n):
+                            if isinstance(e, ast.Name) and e.id in lnames:
+                                ds_ = cnorm.rd.get(n.id, {}).get(e.id) or ()
+                                return e.id if set(ds_) == {lhead.id} else None
                             return None
-                        vcs = visit_calls(c, tail)
-                        extra = []
+                        vcs = [c]
+                    elif not is_visit_reg(c):
+                        continue
                     else:
-                        # named callback with the loop variables as extra arguments
-                        g = CH.nested.get(t.id) if isinstance(t, ast.Name) else None
-                        if g is None:
-                            raise AnchorVanished("visit callback for %s is neither a lambda nor a nested function" % lst)
-                        gps = g.params[1:]
-                        amap = {p: dflt.id for p, dflt in _lambda_bindings(g.node)[0].items() if isinstance(dflt, ast.Name)}
-                        for p, a in zip(gps, c.args[1:]):
-                            if isinstance(a, ast.Name):
-                                amap[p] = a.id
-                        for kw in c.keywords:
-                            if kw.arg and isinstance(kw.value, ast.Name):
-                                amap[kw.arg] = kw.value.id
-                        for x in func_own_nodes(g, into_lambda=True):
-                            if isinstance(x, ast.Name) and x.id in lnames and x.id not in g.params:
-                                r.violation(CH, CH.loc(c), "the callback reads loop variable %s when it runs: every callback "
-                                            "sees the last entry of %s" % (x.id, lst))
-                                break
-                        val = lambda e, amap=amap: amap.get(e.id) if isinstance(e, ast.Name) else None
-                        vcs = visit_calls(c, tail)
-                        for vc in vcs:
-                            r.require(any(isinstance(x, ast.Return) and x.value is not None
-                                          and any(y is vc for y in ast.walk(x.value)) for x in func_own_nodes(g)),
-                                      CH, CH.loc(vc), "the callback %s does not return the result of %s: the chain does not "
-                                      "wait for this visit, so the walk can finish (and report) before the %s is done" % (
-                                          g.name, src(CH, vc.func), "subtree" if kind == "dir" else "node"))
+                        r.site(CON, c, "visit callback for %s" % lst)
+                        r.require(REGS[c.func.attr] in ("cb", "both"), CON, CON.loc(c),
+                                  "the visit is registered with %s: it does not run on the success path" % c.func.attr)
+                        r.require(attr_path(c.func.value) == D, CON, CON.loc(c),
+                                  "the visit is registered on %s, not on the returned Deferred %s" % (src(CON, c.func.value), D))
+                        t = c.args[0]
+                        if isinstance(t, ast.Lambda):
+                            binds, lparams = _lambda_bindings(t)
+                            for x in own_nodes(t.body, into_lambda=True):
+                                if isinstance(x, ast.Name) and x.id in lnames and x.id not in lparams:
+                                    r.violation(CON, CON.loc(c), "the callback reads loop variable %s when it runs, not when it is "
+                                                "registered: every callback sees the last entry of %s" % (x.id, lst))
+                                    break
+
+                            def val(e, binds=binds):
+                                """loop variable denoted by e inside the lambda"""
+                                if isinstance(e, ast.Name) and e.id in binds and isinstance(binds[e.id], ast.Name):
+                                    return binds[e.id].id
+                                return None
+                            vcs = visit_calls(c, tail)
+                        else:
+                            # named callback with the loop variables as extra arguments
+                            lparams = ()
+                            g = CON.nested.get(t.id) if isinstance(t, ast.Name) else None
+                            if g is None:
+                                raise AnchorVanished("visit callback for %s is neither a lambda nor a nested function" % lst)
+                            gps = g.params[1:]
+                            amap = {p: dflt.id for p, dflt in _lambda_bindings(g.node)[0].items() if isinstance(dflt, ast.Name)}
+                            for p, a in zip(gps, c.args[1:]):
+                                if isinstance(a, ast.Name):
+                                    amap[p] = a.id
+                            for kw in c.keywords:
+                                if kw.arg and isinstance(kw.value, ast.Name):
+                                    amap[kw.arg] = kw.value.id
+                            for x in func_own_nodes(g, into_lambda=True):
+                                if isinstance(x, ast.Name) and x.id in lnames and x.id not in g.params:
+                                    r.violation(CON, CON.loc(c), "the callback reads loop variable %s when it runs: every callback "
+                                                "sees the last entry of %s" % (x.id, lst))
+                                    break
+                            val = lambda e, amap=amap: amap.get(e.id) if isinstance(e, ast.Name) else None
+                            vcs = visit_calls(c, tail)
+                            for vc in vcs:
+                                r.require(any(isinstance(x, ast.Return) and x.value is not None
+                                              and any(y is vc for y in ast.walk(x.value)) for x in func_own_nodes(g)),
+                                          CON, CON.loc(vc), "the callback %s does not return the result of %s: the chain does not "
+                                          "wait for this visit, so the walk can finish (and report) before the %s is done" % (
+                                              g.name, src(CON, vc.func), "subtree" if kind == "dir" else "node"))
                     for vc in vcs:
                         if kind == "file":
-                            r.require(_recv_is(vc, WALKER), CH, CH.loc(vc), "visit goes to %s" % src(CH, vc.func))
+                            r.require(_recv_is(vc, CON_WALKER), CON, CON.loc(vc), "visit goes to %s" % src(CON, vc.func))
                             ok = len(vc.args) == 2 and val(vc.args[0]) == N_ and val(vc.args[1]) == P_
-                            r.require(ok, CH, CH.loc(vc), "add_node is not given this entry's (%s, %s): %s" % (N_, P_, src(CH, vc)))
+                            r.require(ok, CON, CON.loc(vc), "add_node is not given this entry's (%s, %s): %s" % (N_, P_, src(CON, vc)))
                         else:
-                            r.require(call_name(vc) == "self._deep_traverse_dirnode", CH, CH.loc(vc),
+                            r.require(call_name(vc) == "self." + TD.name, CON, CON.loc(vc),
                                       "directory visit goes to %s" % call_name(vc))
                             ok = len(vc.args) >= 2 and val(vc.args[0]) == N_ and val(vc.args[1]) == P_
-                            r.require(ok, CH, CH.loc(vc), "_deep_traverse_dirnode is not given this entry's (%s, %s): %s" % (
-                                N_, P_, src(CH, vc)))
+                            r.require(ok, CON, CON.loc(vc), "%s is not given this entry's (%s, %s): %s" % (
+                                TD.name, N_, P_, src(CON, vc)))
                             for i, q in enumerate(td_params):
                                 if i < 2:
                                     continue
                                 a = arg(vc, i, q)
-                                if q in ch_params:
+                                if q in con_params:
                                     r.require(isinstance(a, ast.Name) and a.id == q and q not in (
-                                        lparams if isinstance(t, ast.Lambda) else ()), CH, CH.loc(vc),
+                                        lparams if isinstance(t, ast.Lambda) else ()), CON, CON.loc(vc),
                                         "the recursive visit does not share this walk's %s (%s): %s" % (
-                                            q, "verifiers seen in one subtree are forgotten in the next" if q == FOUND
-                                            else "argument not forwarded", src(CH, a) if a is not None else "missing"))
+                                            q, "verifiers seen in one subtree are forgotten in the next" if q == CON_FOUND
+                                            else "argument not forwarded", src(CON, a) if a is not None else "missing"))
         # enter_directory once per listing
-        refs = [x for x in func_own_nodes(CH, into_lambda=True) if isinstance(x, ast.Attribute)
-                and x.attr == "enter_directory" and attr_path(x) == WALKER + ".enter_directory"]
-        r.require(len(refs) == 1 and _enclosing_loop(CH, refs[0]) is None if refs else False, CH, CH.loc(),
-                  "%s.enter_directory is not notified exactly once per listed directory" % WALKER)
+        refs = [x for x in func_own_nodes(CON, into_lambda=True) if isinstance(x, ast.Attribute)
+                and x.attr == "enter_directory" and attr_path(x) == CON_WALKER + ".enter_directory"]
+        r.require(len(refs) == 1 and _enclosing_loop(CON, refs[0]) is None if refs else False, CON, CON.loc(),
+                  "%s.enter_directory is not notified exactly once per listed directory" % CON_WALKER)
 
     # -- 2 + 4. seeding and the add_node-then-list step -------------------------------
     with ctx.rule("C21.2", "R4", "deep_traverse seeds found with the root's verify cap and starts at (self, []); "
@@ -528,56 +772,100 @@ def run(ctx: Context):
         # _deep_traverse_dirnode
         tcfg = TD.cfg()
         tnorm = FlowNorm(TD)
-        regs = registrations(TD)
-        rets = tcfg.find(is_return)
-        dn = {n.ast.value.id for n in rets if isinstance(n.ast.value, ast.Name)}
-        if len(dn) != 1 or len(rets) != len([n for n in rets if isinstance(n.ast.value, ast.Name)]):
-            raise AnchorVanished("_deep_traverse_dirnode does not return one Deferred variable")
-        D2 = dn.pop()
-        chain = [x for x in regs if x.recv == D2]
-        i_ch = [i for i, x in enumerate(chain) if x.target_name().endswith("._deep_traverse_dirnode_children")]
-        if len(i_ch) != 1:
-            raise AnchorVanished("_deep_traverse_dirnode: registration of _deep_traverse_dirnode_children not found")
-        reg_ch = chain[i_ch[0]]
-        r.site(TD, reg_ch.call, "listing handed to _deep_traverse_dirnode_children")
-        r.require(reg_ch.kind == "cb" and reg_ch.target_name() == "self._deep_traverse_dirnode_children", TD,
-                  TD.loc(reg_ch.call), "children walk registered as %s on %s" % (reg_ch.kind, reg_ch.target_name()))
-        amap = {}
-        for q, a in zip(ch_params[1:], reg_ch.args):
-            amap[q] = a.id if isinstance(a, ast.Name) and a.id in td_params else None
-        for kw in reg_ch.call.keywords:
-            if kw.arg:
-                amap[kw.arg] = kw.value.id if isinstance(kw.value, ast.Name) and kw.value.id in td_params else None
-        for q in ch_params[1:]:
-            r.require(amap.get(q) is not None, TD, TD.loc(reg_ch.call),
-                      "_deep_traverse_dirnode_children's %s is not one of _deep_traverse_dirnode's own parameters" % q)
-        T_FOUND, T_WALKER = amap.get(FOUND), amap.get(WALKER)
-        T_PATH = amap.get(PATHP) if PATHP else None
-        T_NODE = amap.get(ch_params[1])
-        # listing: a callback before it calls T_NODE.list()
-        lists = []
-        for i, x in enumerate(chain[:i_ch[0]]):
-            t = x.target
-            body = t.body if isinstance(t, ast.Lambda) else None
-            if body is not None:
-                for c in own_nodes(body, into_lambda=True):
-                    if isinstance(c, ast.Call) and call_tail(c) == "list" and isinstance(c.func, ast.Attribute):
-                        lists.append((i, x, c))
-            elif isinstance(t, ast.Attribute) and t.attr == "list":
-                lists.append((i, x, ast.Call(func=t, args=[], keywords=[])))
-        if not lists:
-            raise AnchorVanished("_deep_traverse_dirnode: no node.list() callback before the children walk")
-        li, lx, lc = lists[-1]
-        r.site(TD, lx.call, "listing callback")
-        r.require(lx.kind == "cb" and li == i_ch[0] - 1, TD, TD.loc(lx.call),
-                  "the children walk does not directly consume the result of %s" % src(TD, lc))
-        r.require(T_NODE is not None and attr_path(lc.func.value) == T_NODE, TD, TD.loc(lx.call),
-                  "the listing of %s is walked as the children of %s" % (src(TD, lc.func.value), T_NODE))
+        h_node = None          # CFG node at which the listing is handed to the classification of the children
+        if not _is_gen(TD):
+            regs = registrations(TD)
+            rets = tcfg.find(is_return)
+            dn = {n.ast.value.id for n in rets if isinstance(n.ast.value, ast.Name)}
+            if len(dn) != 1 or len(rets) != len([n for n in rets if isinstance(n.ast.value, ast.Name)]):
+                raise AnchorVanished("_deep_traverse_dirnode does not return one Deferred variable")
+            D2 = dn.pop()
+            chain = [x for x in regs if x.recv == D2]
+            i_ch = [i for i, x in enumerate(chain) if x.target_name().endswith("." + CLS.name)]
+            if len(i_ch) != 1:
+                raise AnchorVanished("%s: registration of %s not found" % (TD.name, CLS.name))
+            reg_ch = chain[i_ch[0]]
+            r.site(TD, reg_ch.call, "listing handed to _deep_traverse_dirnode_children")
+            r.require(reg_ch.kind == "cb" and reg_ch.target_name() == "self." + CLS.name, TD,
+                      TD.loc(reg_ch.call), "children walk registered as %s on %s" % (reg_ch.kind, reg_ch.target_name()))
+            amap = {}
+            for q, a in zip(ch_params[1:], reg_ch.args):
+                amap[q] = a.id if isinstance(a, ast.Name) and a.id in td_params else None
+            for kw in reg_ch.call.keywords:
+                if kw.arg:
+                    amap[kw.arg] = kw.value.id if isinstance(kw.value, ast.Name) and kw.value.id in td_params else None
+            for q in ch_params[1:]:
+                r.require(amap.get(q) is not None, TD, TD.loc(reg_ch.call),
+                          "_deep_traverse_dirnode_children's %s is not one of _deep_traverse_dirnode's own parameters" % q)
+            T_FOUND, T_WALKER = amap.get(FOUND), amap.get(WALKER)
+            T_PATH = amap.get(PATHP) if PATHP else None
+            T_NODE = amap.get(ch_params[1])
+            # listing: a callback before it calls T_NODE.list()
+            lists = []
+            for i, x in enumerate(chain[:i_ch[0]]):
+                t = x.target
+                body = t.body if isinstance(t, ast.Lambda) else None
+                if body is not None:
+                    for c in own_nodes(body, into_lambda=True):
+                        if isinstance(c, ast.Call) and call_tail(c) == "list" and isinstance(c.func, ast.Attribute):
+                            lists.append((i, x, c))
+                elif isinstance(t, ast.Attribute) and t.attr == "list":
+                    lists.append((i, x, ast.Call(func=t, args=[], keywords=[])))
+            if not lists:
+                raise AnchorVanished("_deep_traverse_dirnode: no node.list() callback before the children walk")
+            li, lx, lc = lists[-1]
+            r.site(TD, lx.call, "listing callback")
+            r.require(lx.kind == "cb" and li == i_ch[0] - 1, TD, TD.loc(lx.call),
+                      "the children walk does not directly consume the result of %s" % src(TD, lc))
+            r.require(T_NODE is not None and attr_path(lc.func.value) == T_NODE, TD, TD.loc(lx.call),
+                      "the listing of %s is walked as the children of %s" % (src(TD, lc.func.value), T_NODE))
+            h_node = _node_of_call(tcfg, reg_ch.call)
+        else:
+            # inlineCallbacks shape: `children = yield node.list()` ... self.<CLS>(children, ..) / the loop over the
+            # listing in this function itself
+            if CON is not TD or CLS_CALL is None:
+                raise AnchorVanished("%s is a generator that does not hand the listing to %s itself; this shape is not "
+                                     "modelled" % (short(TD), short(CLS)))
+            h_node = _node_of_call(tcfg, CLS_CALL)
+            r.site(TD, CLS_CALL, "listing handed to %s" % CLS.name)
+            amap, aexpr = {}, {}
+            for q, a in list(zip(ch_params, CLS_CALL.args)) + [(kw.arg, kw.value) for kw in CLS_CALL.keywords if kw.arg]:
+                aexpr[q] = a
+                amap[q] = a.id if isinstance(a, ast.Name) and a.id in td_params else None
+            for q in ch_params[1:]:
+                r.require(amap.get(q) is not None, TD, TD.loc(CLS_CALL),
+                          "%s's %s is not one of %s's own parameters" % (CLS.name, q, TD.name))
+            T_FOUND, T_WALKER = amap.get(FOUND), amap.get(WALKER)
+            T_PATH = amap.get(PATHP) if PATHP else None
+            # the node of this step: the one reported to add_node outside the visit loops
+            T_NODE = None
+            for x in func_own_nodes(TD):
+                if isinstance(x, ast.Call) and call_tail(x) == "add_node" and T_WALKER and _recv_is(x, T_WALKER) \
+                        and _enclosing_loop(TD, x) is None and x.args and isinstance(x.args[0], ast.Name) \
+                        and x.args[0].id in td_params:
+                    T_NODE = x.args[0].id
+            lst_e = aexpr.get(ch_params[0])
+            lv = lst_e
+            if isinstance(lv, ast.Name) and h_node is not None:
+                ds_ = tnorm.rd.get(h_node.id, {}).get(lv.id) or ()
+                if len(ds_) == 1 and min(ds_) >= 0:
+                    lv = assign_value(tcfg.nodes[min(ds_)], lv.id)
+            r.site(TD, lst_e, "listing")
+            okl = isinstance(lv, (ast.Yield, ast.Await)) and isinstance(lv.value, ast.Call) and call_tail(lv.value) == "list" \
+                and isinstance(lv.value.func, ast.Attribute) and not lv.value.args
+            r.require(okl, TD, TD.loc(CLS_CALL), "the children handed to %s (%s) are not the awaited result of <node>.list()" % (
+                CLS.name, src(TD, lv) if lv is not None else "missing"))
+            if okl:
+                r.require(T_NODE is not None and attr_path(lv.value.func.value) == T_NODE, TD, TD.loc(lv),
+                          "the listing of %s is walked as the children of %s" % (src(TD, lv.value.func.value), T_NODE))
         # add_node(node, path) exactly once
         adds = []
         for x in func_own_nodes(TD, into_lambda=True):
             if isinstance(x, ast.Call):
                 if call_tail(x) == "add_node" and T_WALKER and _recv_is(x, T_WALKER):
+                    if CON is TD and any(id(x) in _ids_under(lp_.body) for (lp_, _q, _e, _g) in
+                                         consumers["file"] + consumers["dir"]):
+                        continue          # the visit of a queued child (rule 3)
                     adds.append((x, list(x.args)))
                 else:
                     for i, a in enumerate(x.args):
@@ -602,7 +890,7 @@ def run(ctx: Context):
         DT = idx.func(DN + ".deep_traverse")
         dcfg = DT.cfg()
         dnorm = FlowNorm(DT)
-        starts = [(n, c) for n in dcfg.nodes for c in node_calls(n) if call_tail(c) == "_deep_traverse_dirnode"]
+        starts = [(n, c) for n in dcfg.nodes for c in node_calls(n) if call_tail(c) == TD.name]
         if len(starts) != 1:
             raise AnchorVanished("deep_traverse: start of the walk not found")
         sn, sc = starts[0]
@@ -627,6 +915,17 @@ def run(ctx: Context):
                     fv = dv
         seeded = fv is not None and (isinstance(fv, ast.Set) or (isinstance(fv, ast.Call) and call_tail(fv) == "set")) \
             and any(isinstance(x, (ast.Call, ast.Name)) and dnorm.norm(sn, x) == "self.get_verify_cap()" for x in ast.walk(fv))
+        if not seeded and T_FOUND and T_NODE and h_node is not None and isinstance(a_node, ast.Name) and a_node.id == "self":
+            # or: the per-directory step records the verify cap of the node it was given (the root, for the first call)
+            # on every path before that node's listing is classified
+            SELFV = norm_src("%s.get_verify_cap()" % T_NODE)
+
+            def records_node(n):
+                return n.kind == "stmt" and T_NODE not in node_stores(n) and any(
+                    call_tail(c) == "add" and _recv_is(c, T_FOUND) and len(c.args) == 1
+                    and tnorm.norm(n, c.args[0]) == SELFV for c in node_calls(n))
+            if tcfg.find(records_node):
+                seeded = not find_path_avoiding(tcfg, lambda n: n is h_node, gate_node=records_node)
         r.require(seeded, DT, DT.loc(sc), "the found set handed to the walk (%s) is not seeded with the root's own verify "
                   "cap: a cycle back to the root visits the root twice" % (src(DT, fv) if fv is not None else "missing"))
         # the result of the walk: walker.finish() runs after the whole walk, its value reaches monitor.finish, and the
@@ -1061,11 +1360,12 @@ def run(ctx: Context):
         heads = {"listing": head}
         for kind in ("file", "dir"):
             lp = consumers[kind][0][0]
-            hs = [n for n in cfg.nodes if n.kind == "iter" and n.ast is lp]
+            hs = [n for n in ccfg.nodes if n.kind == "iter" and n.ast is lp]
             if not hs:
                 raise AnchorVanished("loop over the queued %s children not in the CFG" % kind)
             heads[kind] = hs[0]
         QUEUE = {"file": FILEL, "dir": DIRL}
+        CQUEUE = {"file": CON_FILEL, "dir": CON_DIRL}
 
         def empty_fact(f, name):
             """The edge fact says that the collection `name` is empty."""
@@ -1086,60 +1386,70 @@ def run(ctx: Context):
             return n.kind == "stmt" and isinstance(n.ast, ast.AugAssign) and isinstance(n.ast.target, ast.Name) \
                 and n.ast.target.id == q
 
-        # (a) state: listing walked, listing seen empty, per queue: drained / seen empty (since it last grew)
-        def tr(n, lab, nxt, st):
-            if lab == "exc":
-                return None
-            p1, e0, pf, ef, pd, ed = st
-            if n.kind in ("stmt", "iter") and LISTING in node_stores(n):
-                e0 = False
-            if grows(n, FILEL) or (n.kind in ("stmt", "iter") and FILEL in node_stores(n)):
-                ef = False
-            if grows(n, DIRL) or (n.kind in ("stmt", "iter") and DIRL in node_stores(n)):
-                ed = False
-            if n is heads["listing"]:
-                if lab == "done":
-                    p1 = True
-                else:
-                    pf = pd = ef = ed = False         # something may be queued from here on
-            if n is heads["file"] and lab == "done":
-                pf = True
-            if n is heads["dir"] and lab == "done":
-                pd = True
-            f = fnorm.edge_fact(n, lab)
-            if empty_fact(f, LISTING):
-                e0 = True
-            if p1 and empty_fact(f, FILEL):
-                ef = True
-            if p1 and empty_fact(f, DIRL):
-                ed = True
-            return (p1, e0, pf, ef, pd, ed)
-        visited, parent = explore(cfg, (False,) * 6, tr)
-        r.count(len(visited))
+        # (a) state: listing walked, listing seen empty, per queue: drained / seen empty (since it last grew).  Run per
+        # function: the classifying function owns the loop over the listing, the consuming function the two queues
+        # (one and the same function in the callback-chain shape).
+        def returns_complete(G, gcfg, gnorm, with_listing, with_queues, qf, qd):
+            def tr(n, lab, nxt, st):
+                if lab == "exc":
+                    return None
+                p1, e0, pf, ef, pd, ed = st
+                if n.kind in ("stmt", "iter") and LISTING in node_stores(n):
+                    e0 = False
+                if grows(n, qf) or (n.kind in ("stmt", "iter") and qf in node_stores(n)):
+                    ef = False
+                if grows(n, qd) or (n.kind in ("stmt", "iter") and qd in node_stores(n)):
+                    ed = False
+                if with_listing and n is heads["listing"]:
+                    if lab == "done":
+                        p1 = True
+                    else:
+                        pf = pd = ef = ed = False         # something may be queued from here on
+                if with_queues and n is heads["file"] and lab == "done":
+                    pf = True
+                if with_queues and n is heads["dir"] and lab == "done":
+                    pd = True
+                f = gnorm.edge_fact(n, lab)
+                if with_listing and empty_fact(f, LISTING):
+                    e0 = True
+                if p1 and empty_fact(f, qf):
+                    ef = True
+                if p1 and empty_fact(f, qd):
+                    ed = True
+                return (p1, e0, pf, ef, pd, ed)
+            visited, parent = explore(gcfg, (not with_listing, False, False, False, False, False), tr)
+            r.count(len(visited))
+            for (nid, st) in sorted(visited):
+                if gcfg.nodes[nid].kind != "exit":
+                    continue
+                p1, e0, pf, ef, pd, ed = st
+                msg = None
+                if not p1:
+                    if not e0:
+                        msg = ("listing", "%s can return without looking at the children one by one "
+                               "although the listing %s was not seen to be empty: a decision about all children at once (e.g. "
+                               "'all already in %s', where LIT children count as None) keeps children from being reported" % (
+                                   G.name, LISTING, FOUND))
+                elif not with_queues:
+                    pass
+                elif not (pf or ef):
+                    msg = ("file", "%s can return after the children were classified without "
+                           "visiting the entries of %s: the queued file children are never reported" % (G.name, qf))
+                elif not (pd or ed):
+                    msg = ("dir", "%s can return after the children were classified without "
+                           "visiting the entries of %s: the queued subdirectories are never traversed" % (G.name, qd))
+                if msg and msg[0] not in said:
+                    said.add(msg[0])
+                    w = witness(gcfg, parent, (nid, st))
+                    r.violation(G, G.loc(heads[msg[0]].ast), "%s (path: %s)" % (msg[1], w.brief()), w)
         for k in ("listing", "file", "dir"):
-            r.site(CH, heads[k].ast, "loop that every return must have completed (%s)" % k)
+            r.site(CLS if k == "listing" else CON, heads[k].ast, "loop that every return must have completed (%s)" % k)
         said = set()
-        for (nid, st) in sorted(visited):
-            if cfg.nodes[nid].kind != "exit":
-                continue
-            p1, e0, pf, ef, pd, ed = st
-            msg = None
-            if not p1:
-                if not e0:
-                    msg = ("listing", "_deep_traverse_dirnode_children can return without looking at the children one by one "
-                           "although the listing %s was not seen to be empty: a decision about all children at once (e.g. "
-                           "'all already in %s', where LIT children count as None) keeps children from being reported" % (
-                               LISTING, FOUND))
-            elif not (pf or ef):
-                msg = ("file", "_deep_traverse_dirnode_children can return after classifying the children without "
-                       "registering the visits of %s: the queued file children are never reported" % FILEL)
-            elif not (pd or ed):
-                msg = ("dir", "_deep_traverse_dirnode_children can return after classifying the children without "
-                       "registering the visits of %s: the queued subdirectories are never traversed" % DIRL)
-            if msg and msg[0] not in said:
-                said.add(msg[0])
-                w = witness(cfg, parent, (nid, st))
-                r.violation(CH, CH.loc(heads[msg[0]].ast), "%s (path: %s)" % (msg[1], w.brief()), w)
+        if CON is CLS:
+            returns_complete(CLS, cfg, fnorm, True, True, FILEL, DIRL)
+        else:
+            returns_complete(CLS, cfg, fnorm, True, False, FILEL, DIRL)
+            returns_complete(CON, ccfg, cnorm, False, True, CON_FILEL, CON_DIRL)
 
         # (b) the listing reaches the loop as received: follow local copies of the iterable back to the parameter
         flagged, reached = [], []
@@ -1183,27 +1493,34 @@ def run(ctx: Context):
                   "%s that was handed in" % LISTING)
 
         # (c) what was queued stays queued until its visit is registered
-        after, work = {head.id}, [head.id]
-        while work:
-            cur = work.pop()
-            for (dnid, lab) in cfg.succ[cur]:
-                if lab != "exc" and dnid not in after:
-                    after.add(dnid)
-                    work.append(dnid)
-        for n in cfg.nodes:
-            if n.id not in after or n is head:
-                continue
-            for kind, q in QUEUE.items():
-                dropped = None
-                if n.kind in ("stmt", "iter") and not grows(n, q) and (q in node_stores(n) or (
-                        isinstance(n.ast, ast.Delete) and (q + "[]") in node_stores(n))):
-                    dropped = n.ast if n.kind == "stmt" else n.ast.target
-                for c in node_calls(n):
-                    if _recv_is(c, q) and call_tail(c) in ("pop", "remove", "clear", "__delitem__"):
-                        dropped = c
-                if dropped is not None:
-                    r.violation(CH, CH.loc(dropped), "%s is re-bound / shortened (%s) after children were queued in it: "
-                                "those children are never visited" % (q, src(CH, dropped)))
+        def no_shortening(G, gcfg, start_ids, queues):
+            after, work = set(start_ids), list(start_ids)
+            while work:
+                cur = work.pop()
+                for (dnid, lab) in gcfg.succ[cur]:
+                    if lab != "exc" and dnid not in after:
+                        after.add(dnid)
+                        work.append(dnid)
+            for n in gcfg.nodes:
+                if n.id not in after or n.id in start_ids:
+                    continue
+                for kind, q in queues.items():
+                    dropped = None
+                    if n.kind in ("stmt", "iter") and not grows(n, q) and (q in node_stores(n) or (
+                            isinstance(n.ast, ast.Delete) and (q + "[]") in node_stores(n))):
+                        dropped = n.ast if n.kind == "stmt" else n.ast.target
+                    for c in node_calls(n):
+                        if _recv_is(c, q) and call_tail(c) in ("pop", "remove", "clear", "__delitem__"):
+                            dropped = c
+                    if dropped is not None:
+                        r.violation(G, G.loc(dropped), "%s is re-bound / shortened (%s) after children were queued in it: "
+                                    "those children are never visited" % (q, src(G, dropped)))
+        no_shortening(CLS, cfg, {head.id}, QUEUE)
+        if CON is not CLS:
+            got = _node_of_call(ccfg, CLS_CALL)
+            if got is None:
+                raise AnchorVanished("%s: the call of %s is not in the CFG" % (short(CON), CLS.name))
+            no_shortening(CON, ccfg, {got.id}, CQUEUE)
 
         # (d) decisions taken from the found set
         n_dec = 0
@@ -1226,7 +1543,34 @@ def run(ctx: Context):
                       "of other children, so children can be skipped for what is known about others" % (
                           FOUND, src(CH, n.ast), FOUND))
         if not n_dec:
-            raise AnchorVanished("_deep_traverse_dirnode_children takes no decision from %s" % FOUND)
+            raise AnchorVanished("%s takes no decision from %s" % (CLS.name, FOUND))
+        if CON is not CLS:
+            # names whose value is computed from the found set in the consuming function (the queues themselves come out
+            # of the classification, whose use of the set is checked above)
+            tainted, grew = {CON_FOUND}, True
+            while grew:
+                grew = False
+                for x in func_own_nodes(CON):
+                    v, tg = None, []
+                    if isinstance(x, ast.Assign):
+                        v, tg = x.value, x.targets
+                    elif isinstance(x, (ast.AugAssign, ast.AnnAssign)) and x.value is not None:
+                        v, tg = x.value, [x.target]
+                    elif isinstance(x, (ast.For, ast.comprehension)):
+                        v, tg = x.iter, [x.target]
+                    if v is None or any(y is CLS_CALL for y in ast.walk(v)):
+                        continue
+                    if any(isinstance(y, ast.Name) and y.id in tainted for y in ast.walk(v)):
+                        for t_ in tg:
+                            for y in ast.walk(t_):
+                                if isinstance(y, ast.Name) and y.id not in tainted:
+                                    tainted.add(y.id)
+                                    grew = True
+            for n in ccfg.nodes:
+                if n.kind == "test" and n.ast is not None and any(
+                        isinstance(x, ast.Name) and x.id in tainted for x in own_nodes(n.ast, into_lambda=True)):
+                    r.violation(CON, CON.loc(n.ast), "the walk takes a decision from the %s set (%s) outside the per-child "
+                                "test of the current child's own verify cap" % (CON_FOUND, src(CON, n.ast)))
 
 
 def _node_of_call(cfg, call, into_lambda=True):
